@@ -39,8 +39,8 @@ def coreObs {γ : Type} (r : Rewriter γ) (res : CallRes) : CoreObs γ :=
 @[reducible] def coreSys (γ V : Type) (g0 : Nat → V) (selOk : Bytes → Bool) : Sys where
   V := V
   St := CoreInst γ
-  Cfg := Model.World γ × γ × Settings
-  Chunk := Bytes
+  Call := IOp (Model.World γ × γ × Settings) Bytes
+  isCreate := IOp.isCreate
   Obs := CoreObs γ
   g0 := g0
   step := fun _ st o =>
